@@ -41,6 +41,21 @@ CLASSES = {
                "bases": [], "src": ("models.pddl_domain", "Domain")},
     "ProblemParser": {"fields": {"domain": ("ref", "Domain"), "problem": ("ref", "opaque")}, "bases": [],
                       "src": ("lisp_parsers.problem_parser", "ProblemParser")},
+    "TrajectoryExporter": {"fields": {"domain": ("ref", "Domain"), "allow_invalid_actions": "bool"}, "bases": [],
+                           "src": ("exporters.numeric_trajectory_exporter", "TrajectoryExporter")},
+    "TrajectoryTriplet": {"fields": {"previous_state": ("ref", "State"), "operator": ("ref", "opaque"), "next_state": ("ref", "State")},
+                          "bases": [], "src": ("exporters.numeric_trajectory_exporter", "TrajectoryTriplet")},
+    "Problem": {"fields": {"objects": ("ref", "opaque"), "initial_state_predicates": ("ref", "opaque"),
+                           "initial_state_fluents": ("ref", "opaque")}, "bases": [], "src": ("models.pddl_problem", "Problem")},
+    "Action": {"fields": {"name": "str", "signature": ("ref", "dict_str_ref"), "preconditions": ("ref", "opaque"),
+                          "discrete_effects": ("ref", "opaque"), "numeric_effects": ("ref", "opaque"),
+                          "conditional_effects": ("ref", "opaque"), "universal_effects": ("ref", "opaque")}, "bases": [],
+               "src": ("models.pddl_action", "Action")},
+    "ActionCall": {"fields": {"name": "str", "parameters": ("ref", "list_str")}, "bases": [], "src": ("models.action_call", "ActionCall")},
+    "Operator": {"fields": {"action": ("ref", "Action"), "domain": ("ref", "Domain"), "grounded_call_objects": ("ref", "list_str"),
+                            "grounded": "bool", "problem_objects": ("ref", "opaque"), "grounded_effects": ("ref", "opaque"),
+                            "lifted_universal_effects": ("ref", "opaque"), "logger": ("ref", "opaque"),
+                            "grounded_preconditions": ("ref", "opaque")}, "bases": [], "src": ("models.pddl_operator", "Operator")},
     "ENHSPParser": {"fields": {}, "bases": [], "src": ("exporters.enhsp_output_parser", "ENHSPParser")},
     "MetricFFParser": {"fields": {}, "bases": [], "src": ("exporters.ff_output_parser", "MetricFFParser")},
 }
